@@ -267,4 +267,63 @@ theorem latAdd_isHNF (l1 l2 : Lattice) (h1 : l1.denom ≠ 0) (h2 : l2.denom ≠ 
   exact isHNF_div hHNF hgpos
     (fun r c hr hc => (SqiProofs.QuatAlg.gcd_dvd_left' _ _).trans (mat_get_dvd H r c hr hc))
 
+/-! ### equality test -/
+
+theorem qvec_neg (d : ℤ) (x : Vec4) : qvec (-d) x = -qvec d x := by
+  ext i; simp [qvec, div_neg]
+
+theorem ratSpan_neg (d : ℤ) (l : List Vec4) : ratSpan (-d) l = ratSpan d l := by
+  unfold ratSpan
+  apply le_antisymm
+  · apply Submodule.span_le.2
+    rintro _ ⟨x, hx, rfl⟩
+    rw [qvec_neg]
+    exact Submodule.neg_mem _ (Submodule.subset_span ⟨x, hx, rfl⟩)
+  · apply Submodule.span_le.2
+    rintro _ ⟨x, hx, rfl⟩
+    have : qvec d x = -qvec (-d) x := by rw [qvec_neg, neg_neg]
+    rw [this]
+    exact Submodule.neg_mem _ (Submodule.subset_span ⟨x, hx, rfl⟩)
+
+theorem ratSpan_natAbs (d : ℤ) (l : List Vec4) : ratSpan (d.natAbs : ℤ) l = ratSpan d l := by
+  rcases Int.natAbs_eq d with h | h
+  · rw [← h]
+  · have : ((d.natAbs : ℤ)) = -d := by omega
+    rw [this, ratSpan_neg]
+
+theorem isHNF_mul {m : Mat4} (hm : IsHNF m) {s : ℤ} (hs : 0 < s) : IsHNF (m.scalarMul s) := by
+  obtain ⟨z, p⟩ := hm
+  unfold Mat4.scalarMul
+  refine ⟨?_, ?_⟩
+  · intro r c hr hc
+    rw [mat_get_map _ _ _ _ hr (by omega), z r c hr hc, zero_mul]
+  · intro r hr
+    obtain ⟨p1, p2⟩ := p r hr
+    rw [mat_get_map _ _ _ _ hr hr]
+    refine ⟨mul_pos p1 hs, fun c hc1 hc2 => ?_⟩
+    obtain ⟨q1, q2⟩ := p2 c hc1 hc2
+    rw [mat_get_map _ _ _ _ hr hc2]
+    exact ⟨mul_nonneg q1 (le_of_lt hs), mul_lt_mul_of_pos_right q2 hs⟩
+
+/-- **equality test**: on Hermite-normal-form bases `quat_lattice_equal` decides equality of the rational
+    lattices (this is where canonicity = uniqueness of the HNF is used) -/
+theorem latEqual_spec (l1 l2 : Lattice) (h1 : l1.denom ≠ 0) (h2 : l2.denom ≠ 0)
+    (hn1 : IsHNF l1.basis) (hn2 : IsHNF l2.basis) :
+    latEqual l1 l2 = true ↔ ratLat l1 = ratLat l2 := by
+  have a1 : (0 : ℤ) < (l1.denom.natAbs : ℤ) := by omega
+  have a2 : (0 : ℤ) < (l2.denom.natAbs : ℤ) := by omega
+  have e1 : ratLat l1 = ratSpan ((l1.denom.natAbs : ℤ) * (l2.denom.natAbs : ℤ)) (l1.basis.scalarMul (l2.denom.natAbs : ℤ)).cols := by
+    rw [cols_scalarMul, ratSpan_scale _ _ (ne_of_gt a2), ratSpan_natAbs]; rfl
+  have e2 : ratLat l2 = ratSpan ((l1.denom.natAbs : ℤ) * (l2.denom.natAbs : ℤ)) (l2.basis.scalarMul (l1.denom.natAbs : ℤ)).cols := by
+    rw [mul_comm, cols_scalarMul, ratSpan_scale _ _ (ne_of_gt a1), ratSpan_natAbs]; rfl
+  unfold latEqual
+  simp only [beq_iff_eq]
+  constructor
+  · intro h
+    rw [e1, e2, h]
+  · intro h
+    rw [e1, e2] at h
+    have hs := spanL_of_ratSpan (mul_ne_zero (ne_of_gt a1) (ne_of_gt a2)) h
+    exact hnf_unique (isHNF_mul hn2 a1) (isHNF_mul hn1 a2) hs
+
 end SqiProofs.QuatLattice
